@@ -140,6 +140,24 @@ static sqf::runtime::runtime::result execute_do(sqf::runtime::runtime& runtime, 
             continue;
         }
 
+        if (result == sqf::runtime::frame::result::idle)
+        { // A loop without anything to execute (empty body, empty condition) was restarted: no instruction
+          // ran, but it is a step of the script all the same - the runtime limit and the slice length apply.
+            if (runtime.max_runtime_reached())
+            {
+                runtime.__logmsg(logmessage::runtime::MaximumRuntimeReached(context_active.current_frame().diag_info_from_position(), runtime.configuration().max_runtime));
+                runtime_error = false;
+                runtime.log_messages.clear();
+                runtime.exit(0);
+                return sqf::runtime::runtime::result::ok;
+            }
+            if (exit_after > 0)
+            {
+                exit_after--;
+            }
+            continue;
+        }
+
         if (result == sqf::runtime::frame::result::done && context_active.frames_size() == frame_count)
         { // frame is done executing. Pop it from context and rerun.
 
